@@ -858,7 +858,13 @@ input::
         del _conditions; del conditions_
         # get measure collapse conditions
         if npts: #XXX: faster/better if comes first or last?
-            conditions += [cn.impose_measure( npts, [collapses[k] for k in collapses if k.startswith('CollapsePosition')], [collapses[k] for k in collapses if k.startswith('CollapseWeight')] )]
+            def asdict(c): # convert 'pairs' or 'where' format to {measure:set}
+                if type(c) is dict: return c
+                if type(c) is not set: c = zip(*c) if len(c) else ()
+                d = {}
+                for (i,j) in c: d.setdefault(i,set()).add(j)
+                return d
+            conditions += [cn.impose_measure( npts, [asdict(collapses[k]) for k in collapses if k.startswith('CollapsePosition')], [asdict(collapses[k]) for k in collapses if k.startswith('CollapseWeight')] )]
         # get updated constraints
         return to.chain(*conditions)(self._constraints)
 
